@@ -137,11 +137,22 @@ func c05Mutants(prog *pt.Prog, rule string) []*pt.Prog {
 							continue
 						}
 						switch ss[pos-1].(type) {
-						case pt.Return, pt.Break:
+						case pt.Return, pt.Break, pt.If: // after an if statement the reference decides whether every branch terminates
 							ins = []pt.Stmt{pt.Print(pt.S("unreachable"))}
 						default:
 							continue
 						}
+						// the dead statement directly after the terminator, after a comment line, after a blank line
+						if site() {
+							out := append(append([]pt.Stmt(nil), ss[:pos]...), ins...)
+							return append(out, ss[pos:]...)
+						}
+						if site() {
+							out := append(append([]pt.Stmt(nil), ss[:pos]...), pt.Comment{Text: "note"})
+							out = append(out, ins...)
+							return append(out, ss[pos:]...)
+						}
+						ins = append([]pt.Stmt{pt.Blank{}, pt.Comment{Text: "another note"}, pt.Blank{}}, ins...)
 					case "R8":
 						ins = []pt.Stmt{pt.Break{}}
 					case "R9":
